@@ -30,6 +30,7 @@ type DistrGenOpts struct {
 	AllowMainShare bool // a share whose destination is MAIN
 	AllowMainLater bool // MAIN not first among sources
 	AllowBlocked   bool // base destination that cannot receive
+	NoEscrowDest   bool // (integrated) other modules' escrow accounts are not destinations either: their genesis import checks balances
 	MaxSubs        int
 }
 
@@ -63,7 +64,7 @@ func genDistrAccount(t *rapid.T, label string, o DistrGenOpts, asSource bool, us
 				pool = append(append([]string{}, pool...), distrtypes.DistributorMainAccount)
 			}
 			id := pool[rapid.IntRange(0, len(pool)-1).Draw(t, l+"_mod")]
-			if asSource && o.Integrated && foreignEscrow[id] {
+			if o.Integrated && foreignEscrow[id] && (asSource || o.NoEscrowDest) {
 				continue
 			}
 			a = DAcc{Type: tModule, Id: id}
